@@ -8,12 +8,14 @@ import (
 	"bufio"
 	"context"
 	"crypto/rand"
+	"encoding/hex"
 	"encoding/json"
 	"fmt"
 	"net/http"
 	"net/http/httptest"
 	"testing"
 
+	"github.com/ipfs/go-cid"
 	"github.com/ipni/go-libipni/apierror"
 	"github.com/ipni/go-libipni/find/client"
 	"github.com/ipni/go-libipni/find/model"
@@ -174,6 +176,39 @@ func TestVerifC19RoundTrip(t *testing.T) {
 			}
 		}
 		hr.Body.Close()
+		// the same resource asked for as a CID (v1 and v0) and as a hex multihash
+		for _, key := range []string{"/cid/" + cid.NewCidV1(cid.Raw, mh).String(), "/cid/" + cid.NewCidV0(mh).String(), "/multihash/" + hex.EncodeToString(mh)} {
+			cases++
+			req, _ := http.NewRequest(http.MethodGet, srv.URL+key, nil)
+			req.Header.Set("Accept", "application/json")
+			hr, err := http.DefaultClient.Do(req)
+			if err != nil {
+				t.Fatal(err)
+			}
+			if len(list) == 0 {
+				if hr.StatusCode != http.StatusNotFound {
+					t.Fatalf("list %d: %s: empty result set answered with %d", li, key, hr.StatusCode)
+				}
+				hr.Body.Close()
+				continue
+			}
+			if hr.StatusCode != http.StatusOK {
+				t.Fatalf("list %d: %s answered with %d", li, key, hr.StatusCode)
+			}
+			var fr model.FindResponse
+			if err := json.NewDecoder(hr.Body).Decode(&fr); err != nil {
+				t.Fatalf("list %d: %s: %v", li, key, err)
+			}
+			hr.Body.Close()
+			if len(fr.MultihashResults) != 1 || fr.MultihashResults[0].Multihash.B58String() != mh.B58String() || len(fr.MultihashResults[0].ProviderResults) != len(list) {
+				t.Fatalf("list %d: %s: read back a different result set", li, key)
+			}
+			for i := range list {
+				if !verifSame(list[i], fr.MultihashResults[0].ProviderResults[i]) {
+					t.Fatalf("list %d: %s: result %d differs", li, key, i)
+				}
+			}
+		}
 		srv.Close()
 	}
 	fmt.Printf("CASES %d\n", cases)
